@@ -171,6 +171,16 @@ fn linearizable(ops: &[(K, O, u64, u64)], initially: bool) -> bool {
                 done[i] = false;
                 continue;
             }
+            // a Create that overlaps a Delete of the same name and is answered with an error status other than the
+            // specified ones may nevertheless have created the subscription (the racing Delete removed it before the
+            // creator could read it back): C12 allows requests racing with a deletion to fail with another error status
+            if k == K::Create && o == O::Other && ops.iter().any(|x| x.0 == K::Delete && x.2 <= ops[i].3 && ops[i].2 <= x.3) {
+                done[i] = true;
+                if rec(ops, done, true) {
+                    return true;
+                }
+                done[i] = false;
+            }
             let next = match (k, o, state) {
                 (K::Create, O::Ok, false) => Some(true),
                 (K::Create, O::Exists, true) => Some(true),
@@ -284,6 +294,8 @@ pub fn c10_sched(thorough: bool) -> Vec<Unit> {
         ("create-sub‖create-sub", vec![vec![CreateSub(S0, T0)], vec![CreateSub(S0, T0)], vec![GetSub(S0)]], true, false),
         ("create-topic‖delete-topic‖get", vec![vec![CreateTopic(T0)], vec![DeleteTopic(T0)], vec![GetTopic(T0), GetTopic(T0)]], true, false),
         ("create-sub‖delete-sub‖get", vec![vec![CreateSub(S0, T0)], vec![DeleteSub(S0)], vec![GetSub(S0), GetSub(S0)]], true, true),
+        ("create-absent-sub‖delete-sub", vec![vec![CreateSub(S0, T0)], vec![DeleteSub(S0)], vec![GetSub(S0)]], true, false),
+        ("create-absent-sub‖delete-sub‖delete-sub", vec![vec![CreateSub(S0, T0)], vec![DeleteSub(S0)], vec![DeleteSub(S0)]], true, false),
         ("delete-sub‖delete-sub‖create-sub", vec![vec![DeleteSub(S0)], vec![DeleteSub(S0)], vec![CreateSub(S0, T0)]], true, true),
         ("delete-topic‖delete-topic", vec![vec![DeleteTopic(T0)], vec![DeleteTopic(T0)]], true, false),
         ("delete-topic‖delete-topic‖create-topic", vec![vec![DeleteTopic(T0)], vec![DeleteTopic(T0)], vec![CreateTopic(T0)]], true, true),
